@@ -121,6 +121,8 @@ type World struct {
 	quiesceTimeout time.Duration
 	sentMark  int
 	barrierSeq int
+	tampered   map[string]ipfslog.Entry
+	lastForged string
 	gate    *gateCtl
 	cancels map[string]context.CancelFunc
 	expectPub bool
@@ -428,8 +430,27 @@ func (w *World) declare(n int, e ipfslog.Entry) {
 	if e.GetClock() != nil {
 		t = e.GetClock().GetTime()
 	}
-	w.printf("entry e%d log=%s t=%d cid=%d ident=%d key=%d next=%s refs=%s %s\n", n, logID, t, cidRank, ident, key,
+	w.printf("entry e%d log=%s t=%d cid=%d ident=%d key=%d %s next=%s refs=%s %s\n", n, logID, t, cidRank, ident, key, w.identFlags(e),
 		w.cids2(e.GetNext()), w.cids2(e.GetRefs()), opString(e.GetPayload()))
+}
+
+// identFlags describes the identity block of an entry independently of any verification code:
+// ipk = the peer whose public key the block carries, isig = 1 iff the block's signatures are exactly the
+// genuine signatures of the peer whose id it names.
+func (w *World) identFlags(e ipfslog.Entry) string {
+	id := e.GetIdentity()
+	if id == nil {
+		return "ipk=-1 isig=0"
+	}
+	ipk := w.peerOfPubKey(id.PublicKey)
+	isig := 0
+	if q := w.peerOfIdentID(id.ID); q >= 0 && id.Signatures != nil {
+		g := w.peers[q].identity.Signatures
+		if g != nil && bytes.Equal(g.ID, id.Signatures.ID) && bytes.Equal(g.PublicKey, id.Signatures.PublicKey) {
+			isig = 1
+		}
+	}
+	return fmt.Sprintf("ipk=%d isig=%d", ipk, isig)
 }
 
 // ---- observations ----
@@ -558,6 +579,8 @@ func (w *World) resetScenario(id string) {
 	w.hookFn = nil
 	w.mu.Unlock()
 	w.gate = nil
+	w.tampered = nil
+	w.lastForged = ""
 	for _, c := range w.cancels {
 		c()
 	}
